@@ -60,7 +60,7 @@ func c11pools() map[string][]string {
 	p["email"] = []string{"a@b.co", "first.last+tag@sub.example.com", "UPPER@EXAMPLE.COM", "x@y.z"}
 	p["date"] = []string{"2024-02-29", "1900-01-01", "2099-12-31", "2000-02-29"}
 	p["percent"] = []string{"0%", "0.0%", "100%", "12.345%", "-5%", "0.001%"}
-	p["amount"] = []string{"0", "0.00", "1", "-1.00", "123456789.123456", "0.000001"}
+	p["amount"] = []string{"0", "0.00", "1", "-1.00", "123456789.123456", "0.000001", "0.9100000000000000000", "0.2500000000000000000", "1.50000000000000000000", "0.00000000000000000001"}
 	p["tel"] = []string{"+34 600 000 000", "600000000", "(+1) 555-0100 ext. 9"}
 	p["text"] = []string{"x", "multi\nline", "emoji 😀", "quotes \" and \\ backslash", strings.Repeat("long ", 500)}
 	return p
